@@ -3,6 +3,9 @@ import NibabelModel.Lemmas.C17
 import NibabelModel.Generated.C17Codes
 import NibabelModel.Lemmas.C17_Writer
 import NibabelModel.Lemmas.C17_GenTables
+import NibabelModel.Model.C17_Hist
+import NibabelModel.Lemmas.C17_Hist
+import NibabelModel.Lemmas.C17_GenFuncs
 /-! Props/C17 — property theorems for C17 "GIFTI images round-trip through XML for every encoding".
 
     Proved for ALL lists / event streams / shapes / images (no bound):
@@ -19,6 +22,15 @@ import NibabelModel.Lemmas.C17_GenTables
       whole image : image_xml_roundtrip (writer element tree → handler calls → parser = the image, any chunking, under
                     the explicit ElementTree/expat contract), image_xml_roundtrip_gifti + writer_names_parse_back
                     (regenerated tables), image_data_base64 (the data hypothesis is a theorem for Base64)
+
+      histories   : serialise_depends_on_current_state_only (literal object-walking serialiser with its side effect =
+                    pure function of the current image state, for every history of mutations / container ops /
+                    re-loads / serialisations on ONE image object with shared objects), history_kth_output,
+                    history_roundtrip (k-th output parses to the k-th state), inplace_edit_reaches_every_holder,
+                    endian_attribute_invisible
+
+      translated  : gen_get_arrays_from_intent, gen_remove_by_intent, gen_numDA — the methods' SOURCE TEXT, translated
+                    statement by statement on every run (Generated/C17Funcs.lean), computes the container model
 
     PARTIAL (external, enter as hypotheses/parameters, checked only by the oracle on the real code):
       expat / ElementTree (escaping, which handler calls are made — contract in Model/C17 `imgEvents`), base64, zlib,
@@ -525,5 +537,149 @@ example : run Gen.codes exX (imgEvents Gen.names exW)
 /-- non-vacuity of `image_data_base64`: the data hypothesis of the example image is an instance of the theorem -/
 example : exD.dataText ≠ [] ∧ exD.dataText = writeDataBlock (fun b => b.map Char.ofNat) id false false 4 false exD.dims [1, 4294967295] :=
   ⟨by decide +kernel, rfl⟩
+
+/-! ## histories on ONE image object: serialise → mutate → serialise … (Model/C17_Hist) -/
+
+/-- `serialise_depends_on_current_state_only`: for every object state (sharing of data array objects and of ndarrays,
+    stale `endian` attributes left by earlier serialisations included) and every history of mutations, container
+    operations, re-loads and serialisations, the LITERAL serialiser — which walks the objects, writes `self.endian`
+    and threads the state it leaves behind — produces, at the k-th serialisation, exactly `imgEvents` of the abstract
+    value (`view`) the image has at that point: the outputs are a function of `serStates` alone.  Hence nothing a
+    serialisation leaves behind (the model's writer leaves only `endian`; any cache a real writer keeps must likewise
+    be invisible) and nothing about HOW the state was reached (in-place edit vs re-binding, which object holds what)
+    can show in a later output, and two object states with the same attributes give the same outputs. -/
+theorem serialise_depends_on_current_state_only (N : WNames) (native : Nat) (E : DataEnc) (col : Nat → Option Bool)
+    (s : HSt) (ops : List Op) :
+    runLit N native E col s ops
+      = (serStates col s.core ops).bind (mapOpt (fun c => (view native E c).map (imgEvents N))) ∧
+    (∀ s' : HSt, s'.core = s.core → runLit N native E col s' ops = runLit N native E col s ops) := by
+  refine ⟨runLit_eq_runAbs N native E col ops s, fun s' h => ?_⟩
+  rw [runLit_eq_runAbs, runLit_eq_runAbs, h]
+
+/-- the k-th output of a history is the serialisation of the image AS IT IS at the k-th serialisation point -/
+theorem history_kth_output (N : WNames) (native : Nat) (E : DataEnc) (col : Nat → Option Bool) (s : HSt)
+    (ops : List Op) (outs : List (List Event)) (h : runLit N native E col s ops = some outs) :
+    ∃ cs, serStates col s.core ops = some cs ∧ outs.length = cs.length ∧
+      ∀ (k : Nat) c, cs[k]? = some c → ∃ w, view native E c = some w ∧ outs[k]? = some (imgEvents N w) := by
+  rw [(serialise_depends_on_current_state_only N native E col s ops).1] at h
+  cases hs : serStates col s.core ops with
+  | none => simp [hs] at h
+  | some cs =>
+    simp only [hs, Option.bind_some] at h
+    obtain ⟨h1, h2⟩ := mapOpt_getElem _ cs outs h
+    refine ⟨cs, rfl, h1, fun k c hk => ?_⟩
+    obtain ⟨b, hb, hf⟩ := h2 k c hk
+    cases hv : view native E c with
+    | none => simp [hv] at hf
+    | some w =>
+      simp only [hv, Option.map_some, Option.some.injEq] at hf
+      exact ⟨w, rfl, by rw [hb, hf]⟩
+
+/-- `history_roundtrip`: parsing the k-th output of ANY history (any parser buffer size / chunking) gives back the
+    image state at the k-th serialisation — not an earlier one, not a later one — under the hypotheses of
+    `image_xml_roundtrip` for that state. -/
+theorem history_roundtrip (K : Codes) (X : Ext) (N : WNames) (native : Nat) (E : DataEnc) (col : Nat → Option Bool)
+    (s : HSt) (ops : List Op) (outs : List (List Event)) (h : runLit N native E col s ops = some outs)
+    (cs : List Core) (hcs : serStates col s.core ops = some cs) (k : Nat) (c : Core) (hk : cs[k]? = some c)
+    (w : WImg) (hw : view native E c = some w) (ext : List (List (List Nat) × Arr)) (hok : w.Ok K N X ext)
+    (out es : List Event) (ho : outs[k]? = some out) (hes : canon es = canon out) :
+    run K X es = .ok (some (w.parsed ext)) := by
+  obtain ⟨cs', h1, _, h3⟩ := history_kth_output N native E col s ops outs h
+  rw [hcs] at h1
+  cases h1
+  obtain ⟨w', hw', ho'⟩ := h3 k c hk
+  rw [hw] at hw'
+  cases hw'
+  rw [ho] at ho'
+  cases ho'
+  exact image_xml_roundtrip K X N w ext hok es hes
+
+/-- an in-place edit (`img.darrays[pos].data[...] = v`) is in the next output, at every position of the image whose
+    data array holds that ndarray (the same object added twice, two data arrays sharing one ndarray) -/
+theorem inplace_edit_reaches_every_holder (native : Nat) (E : DataEnc) (c : Core) (pos id : Nat) (d : DObj) (a : NdArr)
+    (elems : List Nat) (hp : c.darrays[pos]? = some id) (hd : c.das id = some d) (ha : c.nds d.data = some a)
+    (hl : elems.length = a.elems.length) :
+    ∃ c', applyCore c (.editNd pos elems) = some c' ∧ c'.darrays = c.darrays ∧
+      ∀ id2 d2, c.das id2 = some d2 → d2.data = d.data →
+        (viewDA native E c' id2).map (·.dataText) = some (E d2.encoding d2.datatype d2.indOrd { a with elems := elems }) := by
+  obtain ⟨c', h1, h2, h3⟩ := viewDA_editNd native E c pos id d a elems hp hd ha hl
+  exact ⟨c', h1, h2, fun id2 d2 hd2 he => by rw [h3 id2 d2 hd2, if_pos he]; rfl⟩
+
+/-- the `endian` attribute of a data array never reaches an output (the writer overwrites it first) -/
+theorem endian_attribute_invisible (N : WNames) (native : Nat) (E : DataEnc) (col : Nat → Option Bool) (c : Core)
+    (e e' : Nat → Nat) (ops : List Op) :
+    runLit N native E col ⟨c, e⟩ ops = runLit N native E col ⟨c, e'⟩ ops :=
+  (serialise_depends_on_current_state_only N native E col ⟨c, e'⟩ ops).2 ⟨c, e⟩ rfl
+
+/-- non-vacuity: one uint8 array held by the SAME data array object at two positions; write, edit in place, write —
+    the two outputs carry the old and the new values respectively, at both positions -/
+def exHist : List Op :=
+  [.newNd 1 ⟨2, [2], [1, 7]⟩,
+   .newDA 2 { data := 1, intent := 1008, datatype := 2, indOrd := 1, encoding := 1, dims := [2], extFname := [],
+              extOffset := 0, dmeta := [], coordsys := ⟨0, 0, ['1']⟩ } 1,
+   .add 2, .add 2, .ser, .editNd 0 [182, 223], .ser]
+
+def exEnc : DataEnc := fun _ _ _ a => a.elems.map Char.ofNat
+
+example : (serStates (fun _ => some false) {} exHist).map
+      (·.map (fun c => (view 2 exEnc c).map (·.darrays.map (·.dataText))))
+    = some [some [[Char.ofNat 1, Char.ofNat 7], [Char.ofNat 1, Char.ofNat 7]],
+            some [[Char.ofNat 182, Char.ofNat 223], [Char.ofNat 182, Char.ofNat 223]]] := by
+  rfl
+
+example : ((runLit Gen.names 2 exEnc (fun _ => some false) {} exHist).map List.length) = some 2 := by rfl
+
+/-! ## container methods TRANSLATED from the working tree on every run (Generated/C17Funcs.lean via
+    harness/py2lean_c17.py): the source text itself, statement by statement, computes the container model -/
+
+/-- `GiftiImage.get_arrays_from_intent` as TRANSLATED from the current source, run on any list of data array objects
+    (as `(id, intent)` tuples) with any intent argument (int code or alias) and the Recoder lookup over ANY tables,
+    returns exactly what the model's `getArraysFromIntentArg` returns; a failing lookup raises and nothing else
+    happens. -/
+theorem gen_get_arrays_from_intent (K : Codes) (l : List DA) (a : IntentArg) :
+    Nb.Gen.C17F.get_arrays_from_intent (GenF.icOf K) (GenF.encL l) (GenF.encArg a) =
+      match getArraysFromIntentArg K l a with
+      | .ok r => .ok (GenF.encL r)
+      | .error _ => .error .indexError := by
+  have h := GenF.icOf_enc K a
+  obtain ⟨h1, h2⟩ := GenF.get_arrays_from_intent_eq (GenF.icOf K) l (GenF.encArg a)
+  unfold getArraysFromIntentArg getArraysFromIntentArgIn
+  unfold resolveIntent at h
+  cases hr : resolveIntentIn K.intent K.intentCodes a with
+  | none => rw [hr] at h; simpa using h2 _ h
+  | some c => rw [hr] at h; simpa using h1 c h
+
+/-- `GiftiImage.remove_gifti_data_array_by_intent` as TRANSLATED from the current source leaves `self.darrays` equal to
+    the model's `removeByIntentArg` (the filter); a failing lookup raises before anything is touched. -/
+theorem gen_remove_by_intent (K : Codes) (l : List DA) (a : IntentArg) :
+    Nb.Gen.C17F.remove_gifti_data_array_by_intent (GenF.icOf K) (GenF.encL l) (GenF.encArg a) =
+      match removeByIntentArg K l a with
+      | .ok r => .ok (GenF.encL r)
+      | .error _ => .error .indexError := by
+  have h := GenF.icOf_enc K a
+  obtain ⟨h1, h2⟩ := GenF.remove_by_intent_eq (GenF.icOf K) l (GenF.encArg a)
+  unfold removeByIntentArg removeByIntentArgIn
+  unfold resolveIntent at h
+  cases hr : resolveIntentIn K.intent K.intentCodes a with
+  | none => rw [hr] at h; simpa using h2 _ h
+  | some c => rw [hr] at h; simpa using h1 c h
+
+/-- `GiftiImage.numDA` as TRANSLATED from the current source is the length of `darrays` -/
+theorem gen_numDA (l : List DA) : Nb.Gen.C17F.numDA (GenF.encL l) = .ok (.int (l.length : Nat)) :=
+  GenF.numDA_eq l
+
+/-- non-vacuity over the regenerated tables: adjacent matches, argument given as alias / as code 0 / unknown -/
+example : Nb.Gen.C17F.remove_gifti_data_array_by_intent (GenF.icOf Gen.codes)
+      (GenF.encL [⟨0, 1008⟩, ⟨1, 1008⟩, ⟨2, 0⟩, ⟨3, 1008⟩]) (GenF.encArg (.name "pointset".toList))
+    = .ok (GenF.encL [⟨2, 0⟩]) := by
+  rw [gen_remove_by_intent]; rfl
+
+example : Nb.Gen.C17F.get_arrays_from_intent (GenF.icOf Gen.codes) (GenF.encL [⟨0, 1008⟩, ⟨1, 0⟩]) (GenF.encArg (.code 0))
+    = .ok (GenF.encL [⟨1, 0⟩]) := by
+  rw [gen_get_arrays_from_intent]; rfl
+
+example : Nb.Gen.C17F.get_arrays_from_intent (GenF.icOf Gen.codes) (GenF.encL [⟨0, 1008⟩]) (GenF.encArg (.code 999999))
+    = .error .indexError := by
+  rw [gen_get_arrays_from_intent]; rfl
 
 end Nb.C17
